@@ -187,8 +187,7 @@ PostOK ==
           /\ E.ng = Len(names) /\ Len(E.index) = E.ng
           /\ PostIndexOK(StdGlyphNames, E.index, E.strings)
           /\ PostNames(StdGlyphNames, E.index, E.strings) = names
-          /\ E.trailing = 0                                   \* Pascal strings tile the rest of the table
-          /\ E.total = 34 + 2 * E.ng + PascalSize(E.strings)
+          \* (bytes after the last string that is referred to are not constrained by the property)
      /\ ~E.readfail /\ E.dec = names                          \* read back unchanged
      /\ E.xiused => ~E.xifail /\ E.xi = names                 \* an independent reader sees the same names
 
